@@ -43,13 +43,11 @@ ASSUMPTIONS = [
     "4-tuples or UFO strings for colours); floats are compared with a 1e-9 tolerance",
     "renaming a glyph or layer onto an existing name, deleting the default layer, and cyclic component references "
     "are outside the domain (the adaptor skips them)",
-    "a composite assignment (glyph.anchors = ..., font.guidelines = ..., copyDataFromGlyph) stopped half way by a "
-    "rejected element never releases the hold it imposed on itself (the object stays mute); the harness releases "
-    "that hold after the failed call and does not judge the call",
+    "a composite (glyph.anchors = ..., font.guidelines = ..., copyDataFromGlyph, Layer.insertGlyph, decompose*) "
+    "stopped half way by a rejected element is not judged; should such a call leave the hold it imposed on itself "
+    "unreleased (the assignments and insertGlyph release it in a finally clause since 67bac07), the harness "
+    "releases it after the failed call",
     "python asserts enabled (no -O)",
-    "margin setters are judged from fresh component-bounds caches (the harness calls destroyAllRepresentations() on "
-    "the glyph's components first): stale caches after the base glyph was inserted / renamed / deleted are C03's "
-    "finding F11, not a payload defect",
     "notifications sent while objects are CREATED by the operation (lazy loading, instantiateAnchor(dict), "
     "copyDataFromGlyph's new objects) have no 'before': only their new value is judged",
 ]
@@ -88,7 +86,7 @@ def op_name(op):
         return cls + ".__setitem__"
     if k == "delitem":
         return cls + ".__delitem__"
-    if k in ("clear", "update"):
+    if k in ("clear", "update", "setdefault", "pop"):
         return "%s.%s" % (cls, k)
     if k == "call":
         m = op[2]
@@ -572,8 +570,12 @@ def gen_op(rng, focus=None):
         else:
             key = rng.choice(["com.a.k1", "com.a.k2", "org.b.flag", "public.x"])
             val = rng.choice([2, 3, "s1", [1, 2], {"n": 4}, True, None])
-        if m < 0.6:
+        if m < 0.55:
             return ["setitem", t, key, val]
+        if m < 0.62:
+            return ["setdefault", t, key, val]
+        if m < 0.68:
+            return ["pop", t, key]
         if m < 0.8:
             return ["delitem", t, key]
         if m < 0.9:
@@ -878,10 +880,7 @@ def run_world(case, per_op=None):
                     list(g)
                     if op[0] == "set" and op[1][0] == "glyph" and op[2].endswith("Margin"):
                         margins_of = g
-                        # margins are computed from cached component bounds, which defcon does not evict when the
-                        # base glyph is added, renamed or deleted (C03's finding F11): start from fresh caches
-                        for c in g.components:
-                            c.destroyAllRepresentations()
+
                 if op[0] == "call" and op[2] in ("copyDataFromGlyph", "insertGlyph"):
                     list(w.glyph_at(op[3], op[4]))
             except Exception:
